@@ -1028,7 +1028,11 @@ def run_dfield(case, rng, obs, fail):
     mesh = mesh3(n, cell, p1=(-2.0, 0.0, 1.5))
     Tv = int_tensor(rng, n)
     marr = fieldio.gen_int_array(rng, (*n, 3), -5, 5)
-    m = df.Field(mesh, nvdim=3, value=marr)
+    # the magnetisation's numbers in integer / single-precision storage every third case: the demagnetising field is a
+    # real field whatever the storage of the magnetisation (the integer tensor below is divided by the cell count)
+    store = [None, None, "int64", None, None, "int32", None, None, "float32"][case["sub"] % 9] if "sub" in case else None
+    m = df.Field(mesh, nvdim=3, value=marr) if store is None else df.Field(mesh, nvdim=3, value=marr.astype(store), dtype=getattr(np, store))
+    obs["tags"].append("magnetisation-storage:" + (store or "float64"))
     H = dft.demag_field(m, tensor_field(mesh, Tv))
     obs["field"] = fieldio.field_json(m)
     obs["tensor"] = dict(shape=[2 * k - 1 for k in n], data=[Qs(row) for row in Tv.reshape(-1, 6).tolist()])
@@ -1058,7 +1062,11 @@ def run_cuboid(case, rng, obs, fail):
     for a in range(3):
         v = [0.0, 0.0, 0.0]
         v[a] = M
-        H = dft.demag_field(df.Field(mesh, nvdim=3, value=v), T)
+        mf = df.Field(mesh, nvdim=3, value=v)
+        if float(M).is_integer() and case.get("sub", 0) % 3 == 0:      # the same magnetisation stored as integers
+            mf = df.Field(mesh, nvdim=3, value=np.array(v).astype(np.int64), dtype=np.int64)
+            obs["tags"].append("magnetisation-storage:int64")
+        H = dft.demag_field(mf, T)
         mean = H.mean()
         means.append(float(mean[a]))
         off = [abs(float(mean[b])) for b in range(3) if b != a]
